@@ -190,6 +190,7 @@ def table_cases(draw):
         case["names"] = ["var%d" % k for k in range(case["nvars"])]
     case["kind"] = draw(st.sampled_from(["dataset", "dataarray_named", "dataarray_unnamed"]))
     case["coord_order"] = draw(st.sampled_from(["ne", "en"]))
+    case["extra_position"] = draw(st.sampled_from(["after", "before", "between"]))
     case["var_order"] = draw(st.sampled_from(["fwd", "rev"]))
     return case
 
@@ -206,10 +207,15 @@ def check_table(case, ctx):
     order = [(dims[0], north), (dims[1], east)]
     if case["coord_order"] == "en":
         order = order[::-1]
-    for name, vals in order:
+    # xarray keeps coordinates in declaration order and any order is valid: extra coordinates after, before or between the index coordinates
+    entries = list(order) + [(EXTRA_NAMES[k], (dims, ex)) for k, ex in enumerate(extras)]
+    where = case.get("extra_position", "after")
+    if extras and where == "before":
+        entries = entries[2:] + entries[:2]
+    elif extras and where == "between":
+        entries = [entries[0]] + entries[2:] + [entries[1]]
+    for name, vals in entries:
         cdict[name] = vals
-    for k, ex in enumerate(extras):
-        cdict[EXTRA_NAMES[k]] = (dims, ex)
     ee, nn = np.meshgrid(east, north)
     if case["kind"] == "dataset":
         items = list(zip(names, data))
@@ -231,8 +237,9 @@ def check_table(case, ctx):
     ctx.check(np.array_equal(table[dims[1]].values, ee.ravel()), "easting column is not each cell's easting")
     ctx.check(np.array_equal(table[dims[0]].values, nn.ravel()), "northing column is not each cell's northing")
     for k, ex in enumerate(extras):
+        ctx.check(EXTRA_NAMES[k] in table.columns, "the table of a grid with the extra coordinate %r (declared %s the index coordinates) has no such column: %r", EXTRA_NAMES[k], where, list(table.columns))
         ctx.check(np.array_equal(table[EXTRA_NAMES[k]].values, ex.ravel()), "extra coordinate column %s does not hold that coordinate's values", EXTRA_NAMES[k])
-    ctx.label(case["kind"], "coords_" + case["coord_order"], "extra%d" % case["nextra"])
+    ctx.label(case["kind"], "coords_" + case["coord_order"], "extra%d" % case["nextra"], *(["extras_" + where] if extras else []))
     ctx.nt(case["nr"] >= 2 and case["nc"] >= 2 and case["nr"] != case["nc"])
 
 
